@@ -348,14 +348,20 @@ def groupby_relations(run, rng, pa, level, pred, data, lazy):
         rng.choice(["list", "callable"])
     groupby = {"str": "g", "list": list(by),
                "callable": (lambda df: df.groupby(list(by)))}[form]
-    present = sorted(set(data["g"]))
+    ignore_na = True if rng.random() < 0.7 else False
+    nullcols = ("v",) if level == "column" else ("v", "w")
+    # `groups` may only name groups that exist; with ignore_na=True a group
+    # whose rows are all null may or may not "exist" (not documented), so only
+    # groups with at least one null-free row are named
+    present = sorted({data["g"][i] for i in range(n)
+                      if not (ignore_na and any(G.is_null(data[c][i])
+                                                for c in nullcols))})
     groups = None
     if not two and present and rng.random() < 0.5:
         sel = rng.sample(present, rng.randint(1, len(present)))
         groups = sel[0] if len(sel) == 1 and rng.random() < 0.5 else sel
     glist = None if groups is None else ([groups] if isinstance(groups, str)
                                          else groups)
-    ignore_na = True if rng.random() < 0.7 else False
     J = Judge(run, {"backend": "pandas", "level": level, "pred": pred,
                     "data": data, "groupby": form if form != "list" else by,
                     "groups": groups, "ignore_na": ignore_na, "lazy": lazy})
@@ -391,7 +397,6 @@ def groupby_relations(run, rng, pa, level, pred, data, lazy):
     has_null = any(G.is_null(data[c][i]) for c in
                    (("v",) if level == "column" else ("v", "w"))
                    for i in range(n))
-    nullcols = ("v",) if level == "column" else ("v", "w")
     want_keep = expected_groups(data, by, glist, cols)
     if ignore_na and has_null:
         # documented: nulls are dropped before the function sees the data
@@ -428,10 +433,14 @@ def frame_relations(run, rng, pa, pred, data, ignore_na, lazy):
     # other column is null are covered by the docs alone and are not judged.
     null_rows = [i for i in range(n) if G.is_null(data["v"][i])]
     rowsA, rowsB, framesB = [], [], []
+    labelset = {repr(G.norm(x)) for x in data["index"]["labels"]}
 
     def rowf(store):
         def g(r):
-            store.append([G.norm(r["v"]), G.norm(r["w"])])
+            # rows are recognised by their label: on an empty frame pandas'
+            # DataFrame.apply calls the function once with a dummy NaN row
+            if repr(G.norm(r.name)) in labelset:
+                store.append([G.norm(r["v"]), G.norm(r["w"])])
             return f(r["v"])
         return g
 
